@@ -125,7 +125,6 @@ void run_C07(Ctx &cx) {
   for (uint64_t l : {(uint64_t)R - 1, (uint64_t)R, (uint64_t)R + 1, 2 * (uint64_t)R + 63}) ls.push_back({l, 1});
   for (size_t i = 0; i < ls.size(); i++)
     for (int alg = 0; alg < 3; alg++) {
-      if (!cx.thorough && ls[i].entry == 4 && alg != (int)(cx.seed % 3)) continue;
       if (!cx.take()) continue;
       uint64_t salt = vh::mix(cx.seed, (uint64_t)cx.idx);
       vh::J j;
